@@ -792,6 +792,13 @@ static int load_touchstone1(ts_parser_state_t *tpsp)
 	     * Validate and load the frequency.
 	     */
 	    findex = vdp->vd_frequencies;
+	    if (tpsp->tps_frequency_multiplier *
+		    tpsp->tps_value_vector[0] < 0.0) {
+		_vnadata_error(vdip, VNAERR_SYNTAX, "%s (line %d) error: "
+			"expected non-negative frequency",
+			tpsp->tps_filename, tpsp->tps_line);
+		return -1;
+	    }
 	    if (findex != 0 &&
 		    tpsp->tps_frequency_multiplier *
 		    tpsp->tps_value_vector[0] <= vnadata_get_frequency(vdp,
@@ -884,6 +891,13 @@ static int load_touchstone1(ts_parser_state_t *tpsp)
 	for (;;) {
 	    /* first row */
 	    findex = vdp->vd_frequencies;
+	    if (tpsp->tps_frequency_multiplier *
+		    tpsp->tps_value_vector[0] < 0.0) {
+		_vnadata_error(vdip, VNAERR_SYNTAX, "%s (line %d) error: "
+			"expected non-negative frequency",
+			tpsp->tps_filename, tpsp->tps_line);
+		return -1;
+	    }
 	    if (findex != 0 &&
 		    tpsp->tps_frequency_multiplier *
 		    tpsp->tps_value_vector[0] <= vnadata_get_frequency(vdp,
